@@ -261,6 +261,43 @@ Qed.
 Lemma float_value_zero s : (float_value s 0 0 == 0)%Q.
 Proof. unfold float_value, float_mant. cbn [Z.eqb inject_Z]. ring. Qed.
 
+(* only bits 0..63 of the transported integer matter *)
+Lemma fields_mod64 b : f_sign (b mod 2 ^ 64) = f_sign b /\ f_exp (b mod 2 ^ 64) = f_exp b /\ f_man (b mod 2 ^ 64) = f_man b.
+Proof.
+  assert (D := Z.div_mod b (2 ^ 64) ltac:(rewrite p64; lia)).
+  set (q := b / 2 ^ 64) in *. set (r := b mod 2 ^ 64) in *.
+  split; [|split].
+  - unfold f_sign. apply Z.mod_pow2_bits_low. lia.
+  - unfold f_exp.
+    assert (E : b / 2 ^ 52 = q * 2 ^ 12 + r / 2 ^ 52).
+    { rewrite D. replace (2 ^ 64 * q + r) with (q * 2 ^ 12 * 2 ^ 52 + r) by (rewrite p64, p52; change (2 ^ 12) with 4096; ring).
+      apply Z.div_add_l. rewrite p52. lia. }
+    rewrite E. replace (q * 2 ^ 12 + r / 2 ^ 52) with (r / 2 ^ 52 + (q * 2) * 2 ^ 11) by (rewrite p11; change (2 ^ 12) with 4096; ring).
+    symmetry. apply Z_mod_plus_full.
+  - unfold f_man. symmetry. rewrite D at 1. fold r.
+    replace (2 ^ 64 * q + r) with (r + (q * 2 ^ 12) * 2 ^ 52) by (rewrite p64, p52; change (2 ^ 12) with 4096; ring).
+    apply Z_mod_plus_full.
+Qed.
+Theorem decode_bits_mod64 b : decode_bits b = decode_bits (b mod 2 ^ 64).
+Proof. rewrite !decode_bits_fields. destruct (fields_mod64 b) as (-> & -> & ->). reflexivity. Qed.
+Lemma mod64_range b : 0 <= b mod 2 ^ 64 < 2 ^ 64.
+Proof. apply Z.mod_pos_bound. rewrite p64. lia. Qed.
+
+(* the finite values are the binary64 ones: an integer of at most 53 bits times a power of two
+   in the binary64 exponent range, so |q| < 2^1024 *)
+Theorem decode_bits_XFin_shape b q : decode_bits b = XFin q ->
+  exists M E, (q == inject_Z M * Qpower 2 E)%Q /\ Z.abs M < 2 ^ 53 /\ -1074 <= E <= 971.
+Proof.
+  intro H. apply decode_bits_XFin in H. destruct H as [He Hq].
+  pose proof (f_exp_range b) as Re. pose proof (f_man_range b) as Rm. rewrite p52 in Rm.
+  exists (if f_sign b then - float_mant (f_exp b) (f_man b) else float_mant (f_exp b) (f_man b)), (float_expo (f_exp b)).
+  split; [|split].
+  - rewrite Hq. unfold float_value. destruct (f_sign b); rewrite ?inject_Z_opp; ring.
+  - unfold float_mant. change (2 ^ 53) with 9007199254740992. rewrite p52.
+    destruct (f_sign b); destruct (f_exp b =? 0); lia.
+  - unfold float_expo. destruct (f_exp b =? 0) eqn:E; [lia|]. apply Z.eqb_neq in E. lia.
+Qed.
+
 (* ---------- totality of the float parsers ---------- *)
 (* [decode_bits] is a total function; [pX] consumes exactly one integer and never fails on a
    non-empty line; [pQ] fails exactly on the NaN / infinity patterns *)
@@ -334,6 +371,86 @@ Proof.
 Qed.
 Local Close Scope Q_scope.
 
+(* ---------- the other helpers of Base/Num.v ---------- *)
+Theorem ulp53_spec : (ulp53 == Qpower 2 (-53))%Q.
+Proof. reflexivity. Qed.
+
+Local Open Scope Q_scope.
+Theorem Qsum_app l1 l2 : Qsum (l1 ++ l2) == Qsum l1 + Qsum l2.
+Proof. induction l1 as [|x l IH]; cbn; [ring|rewrite IH; ring]. Qed.
+
+(* [Qmaxabs l] is the largest absolute value in l (0 for the empty list) *)
+Lemma fold_maxabs_ge l : forall m, m <= fold_left (fun m x => Qmaxb m (Qabs x)) l m /\
+  Forall (fun x => Qabs x <= fold_left (fun m x => Qmaxb m (Qabs x)) l m) l.
+Proof.
+  induction l as [|x l IH]; intro m; cbn [fold_left]; [split; [apply Qle_refl|constructor]|].
+  destruct (IH (Qmaxb m (Qabs x))) as [H1 H2]. destruct (Qmaxb_spec m (Qabs x)) as (A & B & _).
+  split; [lra|]. constructor; [lra|exact H2].
+Qed.
+Lemma fold_maxabs_in l : forall m, fold_left (fun m x => Qmaxb m (Qabs x)) l m = m \/
+  exists x, In x l /\ fold_left (fun m x => Qmaxb m (Qabs x)) l m = Qabs x.
+Proof.
+  induction l as [|x l IH]; intro m; cbn [fold_left]; [left; reflexivity|].
+  destruct (IH (Qmaxb m (Qabs x))) as [H|(y & Hy & H)].
+  - destruct (Qmaxb_spec m (Qabs x)) as (_ & _ & [E|E]); rewrite H, E; [left; reflexivity|right; exists x; split; [left; reflexivity|reflexivity]].
+  - right. exists y. split; [right; exact Hy|exact H].
+Qed.
+Theorem Qmaxabs_spec l :
+  0 <= Qmaxabs l /\ Forall (fun x => Qabs x <= Qmaxabs l) l /\
+  (l = [] /\ Qmaxabs l = 0 \/ exists x, In x l /\ Qmaxabs l == Qabs x).
+Proof.
+  unfold Qmaxabs. destruct (fold_maxabs_ge l 0) as [H1 H2]. split; [exact H1|]. split; [exact H2|].
+  destruct l as [|y l]; [left; split; reflexivity|right].
+  destruct (fold_maxabs_in (y :: l) 0) as [E|(x & Hx & E)].
+  - exists y. split; [left; reflexivity|]. inversion H2 as [|? ? Hy _]; subst. rewrite E in *.
+    pose proof (Qabs_nonneg y). lra.
+  - exists x. split; [exact Hx|]. rewrite E. reflexivity.
+Qed.
+
+(* [Qlmin d l] / [Qlmax d l]: least / greatest of d and the elements of l *)
+Lemma Qlmin_spec d l : Qlmin d l <= d /\ Forall (fun x => Qlmin d l <= x) l /\ (Qlmin d l = d \/ In (Qlmin d l) l).
+Proof.
+  unfold Qlmin. revert d. induction l as [|x l IH]; intro d; cbn [fold_left].
+  - split; [apply Qle_refl|]. split; [constructor|left; reflexivity].
+  - destruct (IH (Qminb d x)) as (H1 & H2 & H3). destruct (Qminb_spec d x) as (A & B & C).
+    split; [lra|]. split; [constructor; [lra|exact H2]|].
+    destruct H3 as [H3|H3]; [|right; right; exact H3].
+    destruct C as [C|C]; rewrite H3, C; [left; reflexivity|right; left; reflexivity].
+Qed.
+Lemma Qlmax_spec d l : d <= Qlmax d l /\ Forall (fun x => x <= Qlmax d l) l /\ (Qlmax d l = d \/ In (Qlmax d l) l).
+Proof.
+  unfold Qlmax. revert d. induction l as [|x l IH]; intro d; cbn [fold_left].
+  - split; [apply Qle_refl|]. split; [constructor|left; reflexivity].
+  - destruct (IH (Qmaxb d x)) as (H1 & H2 & H3). destruct (Qmaxb_spec d x) as (A & B & C).
+    split; [lra|]. split; [constructor; [lra|exact H2]|].
+    destruct H3 as [H3|H3]; [|right; right; exact H3].
+    destruct C as [C|C]; rewrite H3, C; [left; reflexivity|right; left; reflexivity].
+Qed.
+Local Close Scope Q_scope.
+
+(* [qdiag] renders the reduced fraction: numerator / denominator is the value *)
+Theorem qdiag_spec q : exists n d, qdiag q = [n; Zpos d] /\ (n # d == q)%Q.
+Proof. unfold qdiag. exists (Qnum (Qred q)), (Qden (Qred q)). split; [reflexivity|]. destruct (Qred q) eqn:E. cbn. rewrite <- E. apply Qred_correct. Qed.
+
+(* the in-kernel cross-check: the list of disagreeing indices is empty exactly when the
+   function reproduces every recorded verdict *)
+Lemma crosscheck_go_nil (f : list Z -> list Z) cases : forall i,
+  (fix go (l : list (list Z * list Z)) (i : Z) : list Z :=
+     match l with
+     | [] => []
+     | (line, v) :: t => if list_Z_eqb (f line) v then go t (i + 1) else i :: go t (i + 1)
+     end) cases i = [] <-> Forall (fun lv => f (fst lv) = snd lv) cases.
+Proof.
+  induction cases as [|[line v] t IH]; intro i.
+  - split; [constructor|reflexivity].
+  - destruct (list_Z_eqb (f line) v) eqn:E.
+    + apply list_Z_eqb_eq in E. rewrite IH. split; [intro H; constructor; [exact E|exact H]|intro H; inversion H; assumption].
+    + split; [discriminate|]. intro H. inversion H as [|? ? H1 _]; subst. cbn in H1.
+      apply list_Z_eqb_eq in H1. congruence.
+Qed.
+Theorem crosscheck_nil f cases : crosscheck f cases = [] <-> Forall (fun lv => f (fst lv) = snd lv) cases.
+Proof. unfold crosscheck. apply crosscheck_go_nil. Qed.
+
 (* ---------- non-vacuity: concrete patterns ---------- *)
 Example decode_one : decode_bits 0x3FF0000000000000 = XFin 1.
 Proof. reflexivity. Qed.
@@ -362,6 +479,8 @@ Print Assumptions decode_bits_XFin.
 Print Assumptions decode_bits_XInf.
 Print Assumptions decode_bits_XNaN.
 Print Assumptions bits_join_fields.
+Print Assumptions decode_bits_mod64.
+Print Assumptions decode_bits_XFin_shape.
 Print Assumptions pX_total.
 Print Assumptions pQ_none.
 Print Assumptions pQ_none_iff.
@@ -370,3 +489,8 @@ Print Assumptions close_spec.
 Print Assumptions close_sqrt_spec.
 Print Assumptions xwithin_spec.
 Print Assumptions xeq_spec.
+Print Assumptions Qmaxabs_spec.
+Print Assumptions Qlmin_spec.
+Print Assumptions Qlmax_spec.
+Print Assumptions qdiag_spec.
+Print Assumptions crosscheck_nil.
